@@ -26,8 +26,23 @@ def cases(tier, seed, args):
         hi = 6 if dist in ('cacg', 'watson', 'bingham') else 8
         out.append(dict(t='density', dist=dist, D=int(rng.integers(lo, hi + 1)), L=[int(rng.integers(1, 3)) for _ in range(int(rng.integers(0, 3)))],
                         P=int(rng.integers(2, 5)), seed=int(rng.integers(1 << 30)),
-                        cond=float(10.0 ** rng.choice([0, 1, 2, 4, 6, 8])), kappa_exp=float(rng.uniform(-6, np.log10(500))),
-                        mean_scale=[1.0, 1.0, 1e4, 1e6][(i // 8) % 4]))
+                        cond=float(10.0 ** rng.choice([0, 1, 2, 4, 6, 8])),
+                        # concentrations: the whole range, the medium band where asymptotic forms start to apply, the top decade
+                        kappa_exp=float([rng.uniform(-6, np.log10(500)), rng.uniform(np.log10(5), np.log10(40)),
+                                         rng.uniform(1.5, np.log10(500))][(i // 8) % 3]),
+                        mean_scale=[1.0, 1.0, 1e4, 1e6][(i // 8) % 4], layout='CF'[(i // 16) % 2]))
+        if out[-1]['layout'] == 'F' and (i // 32) % 2 == 0:
+            out[-1]['L'] = [[2, 3], [3, 2], [2, 2]][(i // 64) % 3]      # two genuine leading axes: C and Fortran order differ
+    # concentration sweeps of the directional normalisers: geometric grid over the whole admissible range, every dimension
+    grid = np.geomspace(1e-3, 499.0, 24 if q else 96)
+    for D in ((2, 4, 6) if q else (2, 3, 4, 5, 6)):
+        for j, kap in enumerate(grid):
+            out.append(dict(t='density', dist='watson', D=D, L=[], P=1, seed=int(rng.integers(1 << 30)), cond=1.0,
+                            kappa_exp=float(np.log10(kap * (1 + 0.2 * rng.random()))), mean_scale=1.0, layout='C', exact_kappa=True))
+    for D in ((2, 3, 5, 8) if q else (2, 3, 4, 5, 6, 7, 8)):
+        for j, kap in enumerate(grid[::2]):
+            out.append(dict(t='density', dist='vmf', D=D, L=[], P=1, seed=int(rng.integers(1 << 30)), cond=1.0,
+                            kappa_exp=float(np.log10(kap * (1 + 0.2 * rng.random()))), mean_scale=1.0, layout='C', exact_kappa=True))
     return out
 
 
@@ -45,7 +60,8 @@ def run_case(case):
     dist, D, L, P = case['dist'], case['D'], case['L'], case['P']
     fp = f't=density;dist={dist};lead={len(L)};cond={case["cond"]:g}'
     kappa = 10.0 ** case['kappa_exp'] * np.ones(L) if L else np.array(10.0 ** case['kappa_exp'])
-    kappa = kappa * rng.uniform(0.5, 1.0, size=kappa.shape)
+    if not case.get('exact_kappa'):
+        kappa = kappa * rng.uniform(0.5, 1.0, size=kappa.shape)
     real = dist.startswith('gauss') or dist == 'vmf'
     y = rng.normal(size=(*L, P, D)) + (0 if real else 1j * rng.normal(size=(*L, P, D)))
     if dist in ('gauss_full', 'gauss_diagonal', 'gauss_spherical'):
@@ -83,6 +99,14 @@ def run_case(case):
         lam = lam + np.arange(D)[::-1] * (-1e-3)          # gaps >= 1e-3
         lam = lam - lam.max(-1, keepdims=True)
         obj, e0 = call(ComplexBingham, covariance_eigenvectors=U, covariance_eigenvalues=lam)
+    if case.get('layout') == 'F' and obj is not None:
+        # the same parameter values held in Fortran-ordered buffers (transposed views, loadmat output, einsum results)
+        import dataclasses
+        kwf = {f.name: (np.asfortranarray(getattr(obj, f.name)) if isinstance(getattr(obj, f.name), np.ndarray) and
+                        getattr(obj, f.name).ndim >= 2 else getattr(obj, f.name))
+               for f in dataclasses.fields(obj) if f.init}
+        obj, e0 = call(type(obj), **kwf)
+        fp += ';layout=F'
     if obj is None:
         return [dict(kind='density', dist=dist, exc='construct:' + e0, fp=fp, key=f'den:{case["seed"]}')]
     yy = y if dist not in ('cacg', 'watson', 'vmf', 'bingham') else y * 10.0 ** rng.uniform(-3, 3, size=(*L, P, 1))
